@@ -326,6 +326,7 @@ DRIVERS = {
     "idriver": dict(name="idriver", extract_v="theories/Extract/ExtractInterval.v", modname="imodel"),
     "sdriver": dict(name="sdriver", extract_v="theories/Extract/ExtractSolver.v", modname="smodel"),
     "qdriver": dict(name="qdriver", extract_v="theories/Extract/ExtractQef.v", modname="qmodel"),
+    "vdriver": dict(name="vdriver", extract_v="theories/Extract/ExtractHeightmap.v", modname="vmodel"),
 }
 
 
